@@ -106,13 +106,16 @@ extern "C" void h_caps_subscribe(void) {
 extern "C" void h_caps_disconnect(void) {
   W* wp = new W(); W& w = *wp; caps_t c;
   w.start(); bool ok = w.establish(); vk_assert(ok, "first connection"); connack_with(w, c, 1);
-  size_t rl = vk_choose(2) ? 4 : 60; disconnect_props dp; dp[prop::reason_string] = std::string(rl, 'r');
+  // Reason String sized so that the whole DISCONNECT is far below, one below, exactly at, one above or far above the limit
+  size_t mps = (size_t)vk_concretize(c.mps); size_t rl;
+  switch (vk_choose(5)) { case 0: rl = 4; break; case 1: rl = 60; break; case 2: rl = mps - 7 - 1; break; case 3: rl = mps - 7; vk_reach("exactly-at-the-limit"); break; default: rl = mps - 7 + 1; break; }
+  disconnect_props dp; dp[prop::reason_string] = std::string(rl, 'r');
   int op = w.disconnect(disconnect_rc_e::normal_disconnection, dp); vk::drain();
   auto* s = vk::pending_write(); vk_assert(s != nullptr, "DISCONNECT is written");
   ref::packet k; int rv = ref::decode((const uint8_t*)s->wdata.data(), s->wdata.size(), k); vk_assert(rv == ref::OK && k.type == ref::DISCONNECT && k.total == s->wdata.size(), "exactly one DISCONNECT on the wire");
   vk_assert(k.total <= c.mps, "DISCONNECT on the wire exceeds the broker's Maximum Packet Size");
   size_t full = 2 + 1 + 1 + 3 + rl;
-  if (full <= c.mps) { vk_assert(k.props.n == 1, "DISCONNECT lost its properties although it fits"); vk_reach("kept-properties"); }
+  if (full <= c.mps) { vk_assert(k.props.n == 1, "DISCONNECT lost its properties although it fits"); const ref::prop_t* e = k.props.find(0x1F); vk_assert(e && e->a.n == rl, "DISCONNECT carries a different Reason String than given"); vk_reach("kept-properties"); }
   else { vk_assert(k.props.n == 0, "oversized DISCONNECT was not re-encoded without properties"); vk_reach("dropped-properties"); }
   (void)op;
 }
